@@ -396,6 +396,17 @@ func allSame(xs []string) bool {
 	return true
 }
 
+// digList: what the Coq checker receives for a per-replica observation list: a 7-hex-digit digest of each observation
+// (it only tests equality; the readable values stay in cases.json)
+func digList(xs []string) string {
+	var q []string
+	for _, x := range xs {
+		h := sha256.Sum256([]byte(x))
+		q = append(q, "\""+hex.EncodeToString(h[:4])[:7]+"\"")
+	}
+	return hx.List(q)
+}
+
 func strList(xs []string) string {
 	var q []string
 	for _, x := range xs {
@@ -432,7 +443,7 @@ func emitReplicaCase(h *History, obs [][]BlockObs, seed uint64) (string, jCase) 
 				rs = append(rs, obs[r][bi].Txs[ti].Result)
 				es = append(es, obs[r][bi].Txs[ti].Events)
 			}
-			txs = append(txs, fmt.Sprintf("(%s, %s, %s)", hx.Str(t.Kind), strList(rs), strList(es)))
+			txs = append(txs, fmt.Sprintf("(%s, %s, %s)", hx.Str(t.Kind), digList(rs), digList(es)))
 			jb.Txs = append(jb.Txs, t.Kind+" "+t.Note)
 			if !allSame(rs) || !allSame(es) {
 				jc.Diverge = true
@@ -464,7 +475,7 @@ func emitReplicaCase(h *History, obs [][]BlockObs, seed uint64) (string, jCase) 
 				ds = append(ds, d)
 			}
 			if !allSame(ds) {
-				stores = append(stores, fmt.Sprintf("(%s, %s)", hx.Str(l), strList(ds)))
+				stores = append(stores, fmt.Sprintf("(%s, %s)", hx.Str(l), digList(ds)))
 				if jb.Diff == nil {
 					jb.Diff = map[string][]string{}
 				}
@@ -487,7 +498,7 @@ func emitReplicaCase(h *History, obs [][]BlockObs, seed uint64) (string, jCase) 
 			jb.Results = jb.Results[:1] // all equal: keep one
 		}
 		jc.Blocks = append(jc.Blocks, jb)
-		blocks = append(blocks, fmt.Sprintf("mkB %s %s %s %s", strList(hashes), hx.List(txs), strList(upds), hx.List(stores)))
+		blocks = append(blocks, fmt.Sprintf("mkB %s %s %s %s", digList(hashes), hx.List(txs), digList(upds), hx.List(stores)))
 	}
 	var kinds []string
 	for kd := range kindSet {
